@@ -1,6 +1,7 @@
 package cache
 
 import (
+	"hash/maphash"
 	"sync"
 	"time"
 
@@ -12,6 +13,9 @@ import (
 
 type MemoryCache struct {
 	backend otter.CacheWithVariableTTL[string, *cacheEntry]
+
+	// Stores of one key are serialized. See Store.
+	storeLocks [64]sync.Mutex
 
 	getTotal prometheus.Counter
 	hitTotal prometheus.Counter
@@ -66,11 +70,33 @@ func (c *MemoryCache) Store(k []byte, storedTime, expireTime time.Time, v []byte
 
 	ttl := time.Until(expireTime)
 	if setNX {
-		c.backend.SetIfAbsent(ks, e, ttl)
+		// The remove-and-retry below must not race with another store of ks.
+		l := &c.storeLocks[maphash.String(storeLockSeed, ks)%uint64(len(c.storeLocks))]
+		l.Lock()
+		defer l.Unlock()
+		ok := c.backend.SetIfAbsent(ks, e, ttl)
+		if !ok {
+			// The backend keeps an expired entry until its cleanup removes it
+			// and counts it as present. Remove such a leftover and try again.
+			if _, alive := c.backend.Get(ks); !alive {
+				c.backend.Delete(ks)
+				ok = c.backend.SetIfAbsent(ks, e, ttl)
+			}
+		}
+		if !ok {
+			releaseEntry(e) // e was not stored.
+		}
 	} else {
-		c.backend.Set(ks, e, ttl)
+		l := &c.storeLocks[maphash.String(storeLockSeed, ks)%uint64(len(c.storeLocks))]
+		l.Lock()
+		defer l.Unlock()
+		if !c.backend.Set(ks, e, ttl) {
+			releaseEntry(e) // e was not stored. (e.g. It is too big.)
+		}
 	}
 }
+
+var storeLockSeed = maphash.MakeSeed()
 
 func (c *MemoryCache) Get(k []byte) (v pool.Buffer, storedTime, expireTime time.Time) {
 	c.getTotal.Inc()
